@@ -173,6 +173,12 @@ class PopSampler(object):
             return (0.0, np.inf)
         return (-np.inf, np.inf)
 
+    def is_point_mass(self, cell):
+        """Pooled / heterogeneous dimension: the sampler only ever returns the
+        population-level value(s)."""
+        return rp.special(self.spec['inner'] if self.spec['kind'] == 'Red'
+                          else self.spec)[cell[1]] is not None
+
 
 def make_sampler(case):
     return ErrSampler(case) if case['family'] == 'err' else PopSampler(case)
@@ -211,6 +217,26 @@ def w_sampler(case):
                          'expected': case['n_ids'],
                          'observed': [c['n'] for c in seam0.choice_calls],
                          'behaviour': 'choice_n'})
+    if case['family'] == 'pop' and case.get('n_ids') and sm.spec['kind'] == 'H':
+        # every sample is ONE individual (a row of the parameter table), whatever
+        # the categorical answers are: successive answers 0, 1, 2, ... here
+        table = np.asarray(sm.top, dtype=float).reshape(case['n_ids'], sm.d)
+
+        def cyc(stream, index, kind, n=None):
+            if kind == 'i':
+                return index % n
+            return Script()(stream, index, kind, n)
+        with Seam(Script(base=cyc)):
+            Sc = np.asarray(sm.sample(), dtype=float)
+        ntr += 1
+        bad = [r_.tolist() for r_ in Sc.reshape(-1, sm.d)
+               if not any(np.array_equal(r_, t_) for t_ in table)]
+        if bad:
+            viol.append({'sub': 'hetero_rows', 'message': 'a sample of a '
+                         'heterogeneous model is not one of its individuals: the '
+                         'dimensions of a sample come from different individuals '
+                         '(%s)' % lab, 'expected': table, 'observed': bad,
+                         'behaviour': 'hetero_rows'})
     if case['family'] == 'pop':
         # the sample handed out is the caller's: a later call with other parameters
         # does not change it
@@ -245,10 +271,12 @@ def w_sampler(case):
             # drawn): the batch has no density
             for cell in itertools.product(range(S0.shape[0]), range(S0.shape[1])):
                 lo, hi = sm.support(cell)
-                if not np.isfinite(lo) or S0.size < 2:
+                point = sm.is_point_mass(cell)
+                if not (np.isfinite(lo) or point) or S0.size < 2:
                     continue
                 out_ = S0.copy()
-                out_[cell] = lo - 0.3
+                # (below the support; or next to a point mass)
+                out_[cell] = S0[cell] + 0.37 if point else lo - 0.3
                 w_out = float(sm.model.compute_log_likelihood(
                     sm.top, out_, **sm._kw()))
                 ntr += 1
@@ -556,6 +584,12 @@ def build(tier, seed):
             pop.append({'family': 'pop', 'spec': spec, 'n_samples': ns,
                         'top': top, 'cov': None if cov is None else cov.tolist(),
                         'n_nodes': n_nodes})
+    # truncated Gaussians living in the far tail (untruncated mean z scales below 0)
+    for z_ in (3.0, 7.5, 9.0, 12.0):
+        for d_ in (1, 2):
+            pop.append({'family': 'pop', 'spec': rp.TG(d_), 'n_samples': 2,
+                        'top': [-z_ * 0.8] * d_ + [0.8] * d_, 'cov': None,
+                        'n_nodes': n_nodes})
     # heterogeneous models holding more individuals than are drawn, and a reduced
     # model directly around a pooled model
     for spec, n_ids in ((rp.H(1), 3), (rp.H(2), 2), (rp.H(1), 4), (rp.H(2), 3)):
@@ -615,3 +649,7 @@ META = {
                   'statement over enumerated base variates; trusted: numpy/scipy '
                   'base generators and transforms.',
 }
+META['level_text'] += (
+    ' Also: far-tail truncated Gaussians, batches with one cell outside the support'
+    ' / off a point mass, heterogeneous samples as rows of the parameter table unde'
+    'r successive categorical answers.')
